@@ -10,7 +10,7 @@ from .. import terms as T
 from ..rules import guard as G
 
 SPEC = os.path.join(D.VERIF, "specs", "contracts.json")
-GUARD_FLOOR = {"checks": 134, "safe": 136}   # 90 % of the guard sites confirmed on the pinned tree (149 / 151)
+GUARD_FLOOR = {"checks": 156, "safe": 158}   # 90 % of the guard sites confirmed on the tree (174 / 176)
 
 
 def select(db, ent):
@@ -202,7 +202,7 @@ def run(chk, tier):
                             "G2": "%s: handler fires although requirement `%s` holds; witness %s",
                             "G3": "%s: an effect precedes the check of `%s`; witness %s",
                         }[rule] % (where, ent["req"], json.dumps(wit))
-                        chk.violation(rule, astx.sig(f), wclass + ":" + cfg, msg,
+                        chk.violation(rule, astx.sig(f), wclass, msg,
                                       {"entry": ent["id"], "config": cfg, "where": where, "witness": wit,
                                        "guards": r.guard_sites, "requirement": ent["req"]})
                 chk.sample({"operation": astx.sig(f), "config": cfg, "requirement": ent["req"], "guards": r.guard_sites[:4],
